@@ -32,6 +32,11 @@ def gen(rng, tier):
             continue
         spec = MU.gen_mirp(rng, tier, malformed=(k % 10 == 8))
         p = rng.choice(spec["ports"])
+        if k % 50 == 28:
+            # a cargo size that is not positive: no visit ever moves the window past the horizon
+            yield dict(mode="badsize", name=p["name"], size=rng.choice(["0", "-1", "-1/2"]), init=p["init"], rate=p["rate"], cap=p["cap"],
+                       horizon=spec["horizon"], seed=1)
+            continue
         yield dict(mode="dyadic", name=p["name"], size=spec["size"], init=p["init"], rate=p["rate"], cap=p["cap"], horizon=spec["horizon"],
                    seed=rng.randrange(10 ** 6))
 
@@ -63,6 +68,35 @@ def run_case(case, drv):
     size, init, rate, cap, H = (Fraction(case[k]) for k in ("size", "init", "rate", "cap", "horizon"))
     exact = case["mode"] == "dyadic"
     res.features += [f"mode:{case['mode']}", f"port:{'supply' if rate > 0 else 'demand'}", f"size:{case['size']}"]
+    if case["mode"] == "badsize":
+        import signal
+
+        class _Timeout(Exception):
+            pass
+
+        def _alarm(*_a):
+            raise _Timeout()
+        old = signal.signal(signal.SIGALRM, _alarm)
+        signal.setitimer(signal.ITIMER_REAL, 3.0)
+        try:
+            mm = MIRP(float(size), float(H))
+            mm.add_nodes(case["name"], float(init), float(rate), float(cap))
+            impl = "ok"
+        except _Timeout:
+            impl = "timeout"
+        except Exception as e:  # noqa
+            impl = core.err_kind(e)
+        finally:
+            signal.setitimer(signal.ITIMER_REAL, 0)
+            signal.signal(signal.SIGALRM, old)
+        rep = drv.ask(f"mirp {fs(size)} {fs(H)} 1 PORT {case['name']} {fs(init)} {fs(rate)} {fs(cap)}").split()[0]
+        if impl == "timeout":
+            res.fail("add_nodes:does-not-terminate", f"MIRP({fs(size)}, {fs(H)}).add_nodes({case['name']}, {fs(init)}, {fs(rate)}, {fs(cap)}) did not return within 3 s "
+                                                     "(cargo size <= 0: the window of the next visit never passes the horizon)")
+        elif impl != rep:
+            res.disagree("MIRP with a non-positive cargo size", impl, rep)
+        res.nontrivial = False
+        return res
     m = MIRP(float(size), float(H))
 
     def close(a, b):
